@@ -24,12 +24,14 @@ from rv.monitors import F
 from rv.props import Acc
 
 RULES = {}
+MODE_OF = {}
 VERIF = os.path.dirname(os.path.dirname(os.path.abspath(__file__)))
 REPO = os.environ.get('VERIF_REPO', '/repo')
 
 
 def real_profile():
-    return gen.profile(n_max=8, p_fail=0.15, p_retry=0.2)
+    # nested recurrent destinations count attempts per process: not meaningful across pool workers
+    return gen.profile(n_max=8, p_fail=0.15, p_retry=0.2, p_rec_nested=0.0)
 
 
 def simplify_for_real(prog):
@@ -49,7 +51,7 @@ def assign_modes(prog, rng, how):
     p = copy.deepcopy(prog)
     for n in p['nodes'].values():
         if how == 'random':
-            n['mode'] = rng.choice(gen.MODES)
+            n['mode'] = rng.choice(gen.ALL_MODES)
         else:
             n['mode'] = how
     return p
@@ -105,8 +107,11 @@ def work_c17(prop, tier, seed, widx, nworkers):
     items = []
     for i in range(nprog):
         base = simplify_for_real(gen.gen_program(rng, real_profile()))
-        variants = [assign_modes(base, rng, how) for how in ('async', 'thread', 'inline', 'process', 'random', 'random')]
+        variants = [assign_modes(base, rng, how) for how in ('async', 'thread', 'inline', 'process', 'random', 'random', 'thread_tag', 'custom_tag')]
         mods = [materialize.load(v) for v in variants]
+        for v, md in zip(variants, mods):
+            for nid, nd in v['nodes'].items():
+                MODE_OF[(md.__name__, nid)] = nd['mode']
         items.append((base, variants, mods))
     threads_pool_registry.auto_init()
     process_pool_registry.auto_init()
@@ -172,13 +177,34 @@ def work_c17(prop, tier, seed, widx, nworkers):
     # 2. trace sanity: events arrived from more than one process (process pool really used)
     pids = set()
     nrec = 0
+    reused = 0
+    wrong_thread = 0
+    main_pid = os.getpid()
     with open(tf.name) as fh:
         for line in fh:
             nrec += 1
             try:
-                pids.add(ast.literal_eval(line)['pid'])
+                rec = ast.literal_eval(line)
             except Exception:  # noqa: BLE001
-                pass
+                continue
+            pids.add(rec['pid'])
+            if rec['k'] == 'body_start':
+                if rec.get('inst_uses'):
+                    reused += 1
+                mode = MODE_OF.get((rec.get('mod'), rec['node']))
+                if mode in ('thread', 'thread_tag', 'custom_tag') and (rec['pid'] != main_pid or rec['main_thread']):
+                    wrong_thread += 1
+                if mode == 'process' and rec['pid'] == main_pid:
+                    wrong_thread += 1
+                if mode in ('async', 'inline') and (rec['pid'] != main_pid or not rec['main_thread']):
+                    wrong_thread += 1
+    if reused:
+        acc.findings.append({'kind': 'node_instance_reused', 'detail': {'invocations_on_reused_objects': reused},
+                             'prop': ['C17', 'C08'], 'tags': [], 'case': None})
+    if wrong_thread:
+        acc.findings.append({'kind': 'wrong_dispatch', 'detail': {'bodies_in_wrong_thread_or_process': wrong_thread},
+                             'prop': ['C17'], 'tags': [], 'case': None})
+    acc.counters['dispatch_checked'] = nrec
     os.unlink(tf.name)
     acc.counters['trace_records'] = nrec
     acc.counters['distinct_pids_with_bodies'] = len(pids)
